@@ -23,7 +23,7 @@ fn scase(fam: Fam, b: &[u8], sched: &[Step], mode: PollMode) -> Case {
 // ------------------------------------------------------------------------------------------
 // C05
 
-type R0 = Result<PollOk, Er>;
+pub type R0 = Result<PollOk, Er>;
 
 fn r0_class(r: &R0) -> String {
     match r {
@@ -32,7 +32,7 @@ fn r0_class(r: &R0) -> String {
     }
 }
 
-fn baseline(fam: Fam, b: &[u8]) -> Result<(R0, usize), String> {
+pub fn baseline(fam: Fam, b: &[u8]) -> Result<(R0, usize), String> {
     match guard(|| dec_poll_bytes(fam, b)) {
         Ok((Drive::Done(v), pos)) => Ok((v, pos)),
         Ok((Drive::Stuck(e), _)) => Err(format!("stuck: {:?}", e)),
